@@ -1,5 +1,13 @@
+import os, sys
 import runner as R
 from props import *
+sys.path.insert(0, os.path.dirname(os.path.dirname(os.path.abspath(__file__))))
+import kernel_part as K
+
+# C03: the subscription kernel (RoProps/C03 + KernelTie: the programs of subscriptionImpl regenerated from subscription.go and decided
+# equal to the ones the theorems are about) — every operator cancels its upstream by registering a teardown with Add: a teardown
+# stored on a disposed subscription would never run (kernel_add_after_done_not_stored, kernel_finalizers_exactly_once_at_end)
+LEAN_MODULES = ['C14', 'C03']
 
 MANIFEST = dict(
     text="Proved in Lean for every machine, raw script and cut position over a hot (never-ending or not) source: once the downstream side is closed - by a terminal the operator emitted or by an "
@@ -35,7 +43,8 @@ def check(ctx):
     for r in catalogue():
         if (r['Waits'] > 0 or r['RecvOutsideGo']) and r['Name'] in KNOWN_WAITING:
             ctx.known.append(f"op={r['Name']} shape=blocks-in-subscribe: the subscribe function waits for its source ({r['File']}:{r['Line']}); Subscribe does not return when downstream ends early over a never-ending source")
-    return dict(rule='every catalogue operator (hot source, external Unsubscribe at a random position, early terminators) and random chains of 2-5 operators; '
+    kp = K.kernel_part(ctx, 'C14')
+    return dict(rule=kp['rule'] + ' [C14 reads the predicate fin-missing: a teardown whose Add returned on a subscription that was disposed has run]; every catalogue operator (hot source, external Unsubscribe at a random position, early terminators) and random chains of 2-5 operators; '
                      'never-ending goroutine-driven source below each operator with Take/First/Unsubscribe/context-cancel above it; compared: probe teardown count, subscription count, closed flag; '
                      'Share / connectable event sequences of C11: live/total upstream subscriptions after every event',
-                search=table_search('C14'))
+                search=combine_search(kp['search'], table_search('C14')))
